@@ -82,7 +82,20 @@ class C07(Prop):
             alpha = pc.alphabet(specs, init_spec, rng)
             for _ in range(per):
                 r = rng.random()
-                if r < 0.35:
+                optf = [(c, fl) for c in specs for (fl, a, inv) in pc.flag_spellings(c)
+                        if a["optional"] and not inv and pc.takes_value(a)]
+                if optf and rng.random() < 0.12:
+                    # <task> <optional-value flag> <x> ...: the documented ambiguity situation and its
+                    # neighbours (x another flag, a task name, a plain word, an inverse, the flag again)
+                    c, fl = rng.choice(optf)
+                    others = [f for (f, a, inv) in pc.flag_spellings(c)]
+                    names = [cc["name"] for cc in specs]
+                    x = rng.choice([rng.choice(others), rng.choice(others), rng.choice(names), "word", fl,
+                                    rng.choice(alpha)])
+                    argv = [c["name"], fl, x] + [rng.choice(alpha) for _ in range(rng.choice([0, 0, 1, 2]))]
+                    if rng.random() < 0.3:
+                        argv.insert(1, rng.choice(alpha))
+                elif r < 0.35:
                     argv = [rng.choice(alpha) for _ in range(rng.choice([0, 1, 2, 2, 3, 3, 4, 5]))]
                 elif r < 0.85:
                     argv = pc.mutate_line(rng, pc.spell_line(rng, specs, init_spec), alpha)
